@@ -173,6 +173,9 @@ func hControllerGraph(id string, n, maxCtrl int, faults bool) {
 	root := g.get(0)
 
 	leaves, err := ResolveControllers(g, root.doc, nil)
+	vObserve("calls", g.calls)
+	vObserve("leaves", len(leaves))
+	vObserve("failed", err != nil)
 
 	// (1) the depth limit bounds the work on every graph, cyclic or not
 	vAssert(g.calls <= hMaxCalls(maxCtrl, maxControllerDepth), id+".calls_bounded_by_depth_limit: more resolver calls than a traversal of depth 5 can make")
